@@ -13,8 +13,16 @@ def main():
     t0 = time.time()
     ok = True
     specs = []
+    hooks = []
     for f in sorted(glob.glob(os.path.join(C.VERIF, "props", "c[0-9]*.py"))):
-        mod = importlib.import_module("props." + os.path.basename(f)[:-3])
+        try:
+            mod = importlib.import_module("props." + os.path.basename(f)[:-3])
+        except Exception as e:
+            C.log("cannot import %s: %r" % (f, e))
+            ok = False
+            continue
+        if hasattr(mod, "setup"):
+            hooks.append((os.path.basename(f), mod.setup))
         if hasattr(mod, "SPEC"):
             specs.append(mod.SPEC)
         if hasattr(mod, "SPECS"):
@@ -65,5 +73,14 @@ def main():
             except Exception as e:
                 C.log("setup_extra for %s failed: %r" % (s["id"], e))
                 ok = False
+    for name, h in hooks:
+        try:
+            r = h()
+            if r not in (None, 0, True):
+                C.log("setup hook of %s reported failure" % name)
+                ok = False
+        except Exception as e:
+            C.log("setup hook of %s failed: %r" % (name, e))
+            ok = False
     C.log("setup %s in %.0fs" % ("ok" if ok else "FAILED", time.time() - t0))
     return 0 if ok else 1
